@@ -1139,6 +1139,29 @@ package gldap
 //@   modifies conn.netConn, conn.reader, conn.writer
 //@   tags C05 C13 C18 C15
 
+// Request.StartTLS (called by a StartTLS handler, inline on the connection
+// goroutine): on success the connection reads and writes through a TLS server
+// connection wrapping the old net.Conn, built with the given configuration; on
+// failure the connection is untouched. The handshake is crypto/tls (A-TLS).
+//@ extern crypto/tls.Server
+//@   params conn net.Conn, config *tls.Config
+//@   results c *tls.Conn
+//@   ensures c != nil && fresh(c)
+//@   sets G_tlscfg[c] = config
+//@   panics false
+//@ extern (*crypto/tls.Conn).Handshake
+//@   params c *tls.Conn
+//@   results err error
+//@   panics false
+//@ func (*gldap.Request).StartTLS
+//@   requires r != nil && r.conn != nil && connIO(r.conn) && !held(&r.conn.mu)
+//@   ensures  err == nil ==> tlsconfig != nil && connIO(r.conn) && G_tlscfg[iref(r.conn.netConn)] == tlsconfig && fresh(r.conn.writer) && fresh(r.conn.reader)
+//@   ensures  err != nil ==> connIO(r.conn) && r.conn.netConn == old(r.conn.netConn) && r.conn.reader == old(r.conn.reader) && r.conn.writer == old(r.conn.writer)
+//@   ensures  !held(&r.conn.mu) && unchanged(G_held) && unchanged(G_rheld)
+//@   panics false
+//@   modifies conn.netConn, conn.reader, conn.writer
+//@   tags C13 C18 C15
+
 // ---- routes (C03) ---------------------------------------------------------------------------------
 //@ pure rbase(r route) *baseRoute = cond(typeIs(r, *baseRoute), r.(*baseRoute), cond(typeIs(r, *searchRoute), r.(*searchRoute).baseRoute, cond(typeIs(r, *simpleBindRoute), r.(*simpleBindRoute).baseRoute,
 //@     cond(typeIs(r, *unbindRoute), r.(*unbindRoute).baseRoute, cond(typeIs(r, *extendedRoute), r.(*extendedRoute).baseRoute, cond(typeIs(r, *modifyRoute), r.(*modifyRoute).baseRoute,
@@ -1193,7 +1216,7 @@ package gldap
 //@ protect gldap.Mux.defaultRoute by mu unlocked (*gldap.Mux).serve
 //@ protect gldap.Mux.unbindRoute by mu unlocked (*gldap.conn).serveRequests
 //@ protect gldap.conn.reader by mu
-//@ protect gldap.conn.netConn by mu unlocked (*gldap.conn).serveRequests (*gldap.conn).close
+//@ protect gldap.conn.netConn by mu unlocked (*gldap.conn).serveRequests (*gldap.conn).close (*gldap.Request).StartTLS
 //@ protect gldap.conn.writer by mu unlocked (*gldap.conn).serveRequests
 //@ func (*gldap.Server).Router
 //@   requires s != nil && !held(&s.mu)
